@@ -184,6 +184,10 @@ func Respellings(toks []Tok) []Respelling {
 		if g > 0 && g < len(toks) && !(identLike(toks[g-1].Kind) && identLike(toks[g].Kind)) {
 			fillers = append([]string{""}, Fillers...)
 		}
+		if g == len(toks) {
+			// the end of the file: nothing at all, a comment that the end of the file terminates, a lone carriage return
+			fillers = append(append([]string{}, fillers...), "", "// c", "//", "\n// c", "\n//", " /* c */", "\n/* c */", "\r", "\n\r", "\n \t")
+		}
 		for _, f := range fillers {
 			if f == def(g) {
 				continue
